@@ -58,6 +58,24 @@ func present(s *lstore.Store, d digest.Digest) bool {
 	return err == nil
 }
 
+// mk builds the n-th distinct object of a given size: a CAS blob, or for the AC-style (mutable
+// growth policy) store an action key with a marshalled ActionResult of that size (sizes 2 or >= 4).
+func mk(g lstore.Geometry, name string, n int, size int) lstore.Obj {
+	if g.AC {
+		pad := size - 4
+		val := lstore.ACValue(int32(1+n%100), pad)
+		if size <= 2 {
+			val = lstore.ACValue(int32(1+n%100), -1)
+		}
+		// make the padding distinct per object
+		if pad > 0 {
+			copy(val[len(val)-pad:], []byte(fmt.Sprintf("%0*d", pad, n)))
+		}
+		return lstore.Obj{Name: name, Digest: lstore.ACKey(inst(g), n), Content: val}
+	}
+	return lstore.CASObj(name, inst(g), []byte(fmt.Sprintf("%s%0*d", name[:1], size-1, n))[:size])
+}
+
 type tracker struct {
 	touched  bool
 	at       int // NewBlock counter at the completion of the last touch
@@ -84,8 +102,7 @@ func seqBody(g lstore.Geometry, depth int) func() {
 	return func() {
 		med := lstore.NewMedia(g)
 		s := lstore.Open(g, med)
-		in := inst(g)
-		T := lstore.CASObj("T3", in, []byte("ttt"))
+		T := mk(g, "T", 0, 3)
 		tr := &tracker{}
 		fill, small := 0, 0
 		for i := 0; i < depth; i++ {
@@ -93,15 +110,12 @@ func seqBody(g lstore.Geometry, depth int) func() {
 			switch k {
 			case 0:
 				fill++
-				o := lstore.CASObj("F", in, []byte(fmt.Sprintf("fill%04d", fill)))
+				o := mk(g, "F", 1000+fill, 8)
 				err := s.PutOK(o.Digest, o.Content)
 				vsched.Obs("F=%s", status.Code(err))
 			case 1:
 				small++
-				o := lstore.CASObj("S", in, []byte(fmt.Sprintf("s%02d", small))[:3+small%2*0])
-				if small%2 == 0 {
-					o = lstore.CASObj("S", in, []byte(fmt.Sprintf("sm%03d", small)))
-				}
+				o := mk(g, "S", 2000+small, 3+small%2*2)
 				err := s.PutOK(o.Digest, o.Content)
 				vsched.Obs("S=%s", status.Code(err))
 			case 2:
@@ -176,7 +190,7 @@ func concBody(g lstore.Geometry) func() {
 		med := lstore.NewMedia(g)
 		s := lstore.Open(g, med)
 		in := inst(g)
-		T := lstore.CASObj("T3", in, []byte("ttt"))
+		T := mk(g, "T", 0, 3)
 		if err := s.PutOK(T.Digest, T.Content); err != nil {
 			vsched.HarnessFail("prefill: %v", err)
 		}
@@ -288,6 +302,7 @@ func main() {
 					for n := 1; n <= 3; n++ {
 						g := base
 						g.Old, g.Current, g.New, g.Mutable, g.Hierarchical = o, c, n, mut, hier
+						g.AC = mut && !hier && n == 1 // the AC store is what has the mutable policy in a real configuration; hierarchical+mutable is kept as a harness-wired variant
 						if (o+c+n)%3 == 0 {
 							g.InMemoryBlocks = true
 						}
